@@ -6,7 +6,7 @@ def main(argv):
     refsem.run("C02", "c02", argv, [
         "the reference evaluator coq/Model/RefSem.v is hand-written (it is the specification of C02); the compiler+VM of /repo are tied to it by the correspondence run on generated programs, not by a proof over the Go source",
         "builtins outside the modelled core (floats, chars, hashes, string functions, rest on arrays, non-integer indices) are not generated or are declined by the model (outcome UNSPEC, counted)",
-        "the step budget of the harness (6000 VM instructions) and the fuel of the model (300) bound the programs compared",
+        "the step budget of the harness (4000 VM instructions) and the fuel of the model (300) bound the programs compared",
     ], {
         "tco-by-name": lambda r: r.get("defn_rebinds_and_calls_its_own_name") and not r.get("disagrees_also_without_self_tail_call", True),
     })
